@@ -30,6 +30,9 @@ func (*rawCmd) Response() gopacket.DecodingLayer      { return nil }
 
 var c03Ops []int // indexes into histOps
 
+// indexes of the two further DCMI commands in histOps (set in init)
+var opDCMISensorInfoCmd, opDCMICapsCmd int
+
 func addOp(op histOp) int {
 	histOps = append(histOps, op)
 	return len(histOps) - 1
@@ -58,7 +61,9 @@ func init() {
 	c03Ops = append(c03Ops, opGetDeviceID, opChassisControl, opGetSDR, opSetPriv, opPowerReading, opChassisStatus, opSensorReading, opSystemGUID, opSessionInfo, opAuthCaps)
 	c03Ops = append(c03Ops,
 		addOp(histOp{Name: "GetSessionInfo(current)", NetFn: 0x06, Cmd: 0x3d, Data: []byte{0},
-			New: func() ipmi.Command { return &ipmi.GetSessionInfoCmd{Req: ipmi.GetSessionInfoReq{Index: ipmi.SessionIndexCurrent}} }}),
+			New: func() ipmi.Command {
+				return &ipmi.GetSessionInfoCmd{Req: ipmi.GetSessionInfoReq{Index: ipmi.SessionIndexCurrent}}
+			}}),
 		addOp(histOp{Name: "GetSessionInfo(handle)", NetFn: 0x06, Cmd: 0x3d, Data: []byte{0xFE, 0x33},
 			New: func() ipmi.Command {
 				return &ipmi.GetSessionInfoCmd{Req: ipmi.GetSessionInfoReq{Index: ipmi.SessionIndexHandle, Handle: 0x33}}
@@ -71,6 +76,9 @@ func init() {
 			}}),
 		addOp(histOp{Name: "CloseSession(handle)", NetFn: 0x06, Cmd: 0x3c, Data: []byte{0, 0, 0, 0, 0x21},
 			New: func() ipmi.Command { return &ipmi.CloseSessionCmd{Req: ipmi.CloseSessionReq{ID: 0, Handle: 0x21}} }}),
+	)
+	opDCMISensorInfoCmd, opDCMICapsCmd = len(histOps), len(histOps)+1
+	c03Ops = append(c03Ops,
 		addOp(histOp{Name: "GetDCMISensorInfo", NetFn: 0x2c, Cmd: 0x07, Data: []byte{0xDC, 0x01, 0x40, 0x00, 0x01},
 			New: func() ipmi.Command {
 				return &dcmi.GetDCMISensorInfoCmd{Req: dcmi.GetDCMISensorInfoReq{Type: ipmi.SensorTypeTemperature, Entity: ipmi.EntityIDDCMIAirInlet, InstanceStart: 1}}
